@@ -90,7 +90,9 @@ def main():
             rc_pat[cfg] = rp.returncode
             if rp.returncode != 0 and not tail:
                 tail = rp.stdout[-400:]
-        failing = [c for c in rc_pat if rc_pat[c] != 0]
+        # a configuration in which the demonstration declares itself not applicable (same non-zero exit code on the clean and
+        # on the patched build, e.g. "needs the compiled build") neither confirms nor refutes
+        failing = [c for c in rc_pat if rc_pat[c] != 0 and rc_pat[c] != rc_clean[c]]
         meta["steps"]["demo_rc_by_config"] = {"clean": rc_clean, "patched": rc_pat}
         meta["steps"]["demo_clean_rc"] = max([rc_clean[c] for c in failing] or [max(rc_clean.values())])
         meta["steps"]["demo_patched_rc"] = 1 if failing else 0
@@ -116,7 +118,7 @@ def main():
     try:
         for p in [prop] + extra:
             t0 = time.time()
-            r = sh([os.path.join(priv, "check"), p, tier], cwd=priv)
+            r = sh([os.path.join(priv, "check"), p, tier], cwd=priv, env=dict(os.environ, BEZIER_VERIF_BUILD=SEEDBUILD))
             rp = os.path.join(priv, "replays")
             if os.path.isdir(rp):
                 os.makedirs(os.path.join(VERIF, "replays"), exist_ok=True)
